@@ -379,9 +379,9 @@ double Inv_GammaP(double p, double a)
 			t = afac * exp(-(x - a1) + a1 * (log(x) - lna1));
 		else
 			t = exp(-x + a1 * log(x) - gln);
-		if(t == 0.0)   // The density underflows: x lies so far in the tail that P(x,a) can not be resolved any further.
-			break;
 		double u = error / t;
+		if(!std::isfinite(u))	// The density underflows (to zero or to a denormal): x lies so far in the tail that P(x,a) can not be resolved any further.
+			break;
 		x -= (t = u / (1. - 0.5 * std::min(1., u * ((a - 1.) / x - 1))));
 		if(x <= 0.)
 			x = 0.5 * (x + t);
